@@ -206,6 +206,12 @@ func runC14(c *Ctx) {
 					// NB: not {0}: HMAC zero-pads keys, so "" and "\x00" are the same PBKDF2 password by definition
 					wrongs["one-byte"] = []byte{'0'}
 				}
+				// the right password inside what a careless reader leaves around it: line ends, blanks, quotes, a BOM, a NUL
+				// in front — each of these is another password
+				for wn, dec := range map[string][2]string{"trailing-newline": {"", "\n"}, "trailing-crlf": {"", "\r\n"}, "trailing-space": {"", " "}, "leading-space": {" ", ""},
+					"leading-tab": {"\t", ""}, "quoted": {"\"", "\""}, "leading-bom": {"\xef\xbb\xbf", ""}, "leading-nul": {"\x00", ""}, "doubled": {string(pw.p), ""}} {
+					wrongs["decorated/"+wn] = []byte(dec[0] + string(pw.p) + dec[1])
+				}
 				for wn, wp := range wrongs {
 					if wp != nil && hmacKeyEquivalent(wp, pw.p) {
 						continue // same PBKDF2-HMAC password by definition (HMAC zero-pads short keys)
